@@ -29,7 +29,7 @@ INFO = {
     "and the serialised tables must equal those of parsers freshly built from freshly parsed grammar text; "
     "G.productions[0].rhs and G._first_sets are unchanged after every operation.",
     "bounds": {"quick": {"L": 2, "grammars": 2, "vectors": "all 49 of length 2 on one grammar, 12 on the other", "len(w_i)": "<= 2", "probe": "<= 3"},
-               "thorough": {"L": "2 (all 49 vectors, 2 grammars) and 3 (60 seeded vectors)"}},
+               "thorough": {"L": "2 (all 64 vectors, 3 grammars) and 3 (16 seeded vectors)"}},
     "outside": "histories longer than L; threads; interruption inside create_table (the un-finally'd swap of the augmented "
     "production can only be left dirty by an exception between two lines, which none of the modelled operations raises)",
     "assumptions": ["get_context stubbed; realize-atomic marks", "the probe loop runs natively inside the path (no symbolic value takes part in it)"],
@@ -106,7 +106,7 @@ def cases(tier, seed):
         import random
 
         rnd = random.Random(seed)
-        for _ in range(60):
+        for _ in range(16):
             v = [rnd.randrange(len(OPS)) for _ in range(3)]
             gn = rnd.choice(list(GRAMMARS))
             out.append({"name": "%s|%s" % (gn, ",".join(OPS[o] for o in v)), "params": {"g": gn, "ops": v}, "budget_s": 6000})
